@@ -178,17 +178,61 @@ class OptimiserAnchors:
         # roles of the decision's arguments by the callee's parameter names
         self.decision_body = facts.body_of_fnconst(self.decision['func'])
         self.dec_args = {}
+        entries = []          # (role name candidate, call-site operand) in parameter order, struct parameters flattened
         if self.decision_body is not None:
             for i in range(1, self.decision_body.arg_count + 1):
                 nm = self.decision_body.local_name(i)
+                arg = self.decision['args'][i - 1]
                 if nm:
-                    self.dec_args[nm] = self.decision['args'][i - 1]
-                # a struct literal argument contributes its fields as roles (Proposal { new, old, kt })
-                ao = self.tr.origin(self.decision['args'][i - 1])
-                if ao['o'] == 'rvalue' and not ao['p'] and ao['rv'].get('r') == 'aggr' and ao['rv'].get('agg') == 'adt' and \
-                        ao['rv'].get('fields'):
+                    self.dec_args[nm] = arg
+                # a struct literal argument contributes its fields as roles (Proposal { new, old, kt }); so does a reference to
+                # a plain struct built before the call (`Metropolis { kt }.accept(..)`)
+                ao = self.tr.origin(arg)
+                if ao['o'] == 'rvalue' and not ao['p'] and ao['rv'].get('r') == 'ref' and not ao['rv']['place']['p']:
+                    ao = self.tr.origin({'k': 'copy', 'l': ao['rv']['place']['l'], 'p': []})
+                if ao['o'] == 'rvalue' and ao['p'] in ([], ['ref']) and ao['rv'].get('r') == 'aggr' and ao['rv'].get('agg') == 'adt' and \
+                        ao['rv'].get('fields') and not ao['rv'].get('adt', '').endswith('MCOptimiser'):
                     for fn_, op in zip(ao['rv']['fields'], ao['rv']['ops']):
                         self.dec_args.setdefault(fn_, op)
+                        entries.append((fn_, op))
+                elif nm:
+                    entries.append((nm, arg))
+        self.roles = self._discover_roles(entries)
+        for canon, actual in self.roles.items():
+            if canon != actual and actual in self.dec_args:
+                self.dec_args[canon] = self.dec_args[actual]
+        if self.decision_body is not None:
+            self.decision_body.role_rename = {a: c for c, a in self.roles.items() if a != c}
+
+    def _discover_roles(self, entries):
+        """{'new' | 'old' | 'kt': actual parameter / field name} of the decision by what flows into it at the call site: `new`
+        is fed by State::score, `old` by the local that receives the accepted score, `kt` is the remaining float.  Names that
+        cannot be determined this way keep their spelling (a parameter literally called new / old / kt)."""
+        roles = {}
+        names = [e[0] for e in entries]
+        for canon in ('new', 'old', 'kt'):
+            if canon in names:
+                roles[canon] = canon
+        if len(roles) == 3:
+            return roles
+        b = self.body
+        new = [nm for nm, op in entries if 'l' in op and self.tr.origin(op)['o'] == 'call' and not self.tr.origin(op)['p'] and
+               is_trait_call(self.tr.origin(op)['term'], 'State', 'score')]
+        # locals that receive the payload of the decision's result
+        kept = set()
+        for bb in b.blocks:
+            for st in bb['stmts']:
+                if st['s'] == 'assign' and st['rv']['r'] == 'use' and 'l' in st['rv']['a'] and not st['place']['p']:
+                    o = self.tr.origin(st['rv']['a'])
+                    if o['o'] == 'call' and o['term'] is self.decision and o['p']:
+                        kept.add(st['place']['l'])
+        floats = [(nm, op) for nm, op in entries if op.get('ty') == 'f64' and nm not in new]
+        old = [nm for nm, op in floats if 'l' in op and self.arg_local(op) in kept]
+        if len(new) == 1 and len(old) == 1:
+            rest = [nm for nm, op in floats if nm != old[0]]
+            if len(rest) == 1:
+                return {'new': new[0], 'old': old[0], 'kt': rest[0]}
+        return roles
 
     def _outcome_type(self, ty):
         """{'name': type, 'sem': {variant index: 1 accepted / 0 rejected}, 'accept': (variant name, index)} for a result type that
